@@ -1,13 +1,20 @@
 #!/bin/bash
-# runs every claimed property's thorough tier once, sequentially; summary on stdout.
+# runs every claimed property's thorough tier once, in two lanes (8 workers each); summary on stdout.
 # With VP_RUN_REPO set (vp run --with-repo) the checks run against that snapshot of the repository.
 cd "$(dirname "$0")/.."
 [ -n "$VP_RUN_REPO" ] && export VERIF_REPO="$VP_RUN_REPO"
-for p in C02 C03 C04 C05 C06 C07 C08 C09 C10 C11 C12 C13 C14 C15 C16 C17 C18 C19 C20; do
-  s=$(date +%s)
-  ./check $p --tier thorough > /tmp/sweep-$p.txt 2>&1; rc=$?
-  e=$(date +%s)
-  echo "$p exit=$rc wall=$((e-s))s $(tail -1 /tmp/sweep-$p.txt)"
-  grep -E "VIOLATION|UNCONFIRMED|INCONCLUSIVE" /tmp/sweep-$p.txt | cut -c1-300 | head -5
-done
+export VERIF_JOBS=${VERIF_JOBS:-8}
+lane() {
+  for p in "$@"; do
+    s=$(date +%s)
+    ./check $p --tier thorough > /tmp/sweep-$p.txt 2>&1; rc=$?
+    e=$(date +%s)
+    echo "$p exit=$rc wall=$((e-s))s $(tail -1 /tmp/sweep-$p.txt)"
+    grep -E "VIOLATION|UNCONFIRMED|INCONCLUSIVE" /tmp/sweep-$p.txt | cut -c1-300 | head -5
+  done
+}
+# the tiers that changed most recently first
+lane C15 C19 C05 C04 C09 C10 C14 C03 C07 C02 C12 C13 &
+lane C18 C16 C17 C20 C11 C06 C08 &
+wait
 echo SWEEPDONE
